@@ -45,6 +45,10 @@
      getMass(n) = m/Sym).  TRUE is the consistent design (those four use the cut volume on components).  The harness
      determines which design the code under test implements by conformance, and reports the CutLeaf* clauses as TLC
      evaluates them for that design.
+   * ScaleRaises is a second design switch.  TRUE transcribes the code as it is: ArmiObject.changeNDensByFactor sets the
+     scaled densities and then touches self.p.detailedNDens / self.p.pinNDens, parameters that blocks (pinNDens),
+     assemblies and cores (both) do not define: on every non-component the call raises AttributeError *after* the
+     densities were changed.  FALSE is the design in which the call completes.  Clause ScaleAtAnyLevel fails under TRUE.
    * Component.density() falls back to the material's density when the composition is all-zero; that convenience is
      outside the property: leaf density is observed, and SetMassFracs on a leaf is modelled, only where it is non-zero.
    * RemoveMass never removes all there is (floating point cancellation residues would otherwise decide branches of
@@ -53,7 +57,7 @@
      fractions sum to one); maps naming a nuclide nobody holds are exercised as single-entry refusals only (a longer
      map would be applied partially before the ValueError -- not modelled).
 *)
-EXTENDS Integers, Sequences, FiniteSets, TLC, Json, FiniteSetsExt, SequencesExt, Rational
+EXTENDS Integers, Sequences, FiniteSets, TLC, Json, FiniteSetsExt, SequencesExt, Rational, RationalSafe
 
 CONSTANTS NLeaf, NBlk, NAsm,
           Parent,       \* <<parent node of node 1, 2, ... CoreId-1>>
@@ -65,7 +69,9 @@ CONSTANTS NLeaf, NBlk, NAsm,
           Targets,      \* nodes at which edits are applied
           Vals, Facs, Masses, Maps, FracMaps,   \* parameter domains of the edits
           MaxLevel,
-          LeafVolCut    \* design switch, see header
+          LMax, VMax,   \* modelling bound on magnitudes: lcm of all denominators <= LMax, every density <= VMax
+          LeafVolCut,   \* design switch, see header
+          ScaleRaises   \* design switch, see header
 
 Nuc    == {"a", "b", "c"}
 NucSeq == <<"a", "b", "c">>
@@ -84,10 +90,10 @@ vars    == <<N, H, tr>>
 allvars == <<N, H, tr, act, err>>
 
 (* ------------------------------------------ the constant tree ------------------------------------------ *)
-KidsTab == [x \in Node |-> {c \in 1..(CoreId - 1) : Parent[c] = x}]
+KidsTab == TLCEval([x \in Node |-> {c \in 1..(CoreId - 1) : Parent[c] = x}])    \* TLCEval: tables are computed once
 RECURSIVE LU(_)
 LU(x) == IF IsLeaf(x) THEN {x} ELSE UNION {LU(c) : c \in KidsTab[x]}
-Under == [x \in Node |-> LU(x)]                                    \* leaves below (or equal to) x
+Under == TLCEval([x \in Node |-> LU(x)])                                    \* leaves below (or equal to) x
 FirstBlk(a) == CHOOSE b \in KidsTab[a] : \A c \in KidsTab[a] : b <= c   \* self[0]: blocks are stacked in id order
 ISum(S, f(_)) == FoldSet(LAMBDA x, acc : f(x) + acc, 0, S)
 SymOf(x) == IF IsBlk(x) THEN Sym[x] ELSE IF IsAsm(x) THEN Sym[FirstBlk(x)] ELSE 1     \* getSymmetryFactor
@@ -96,12 +102,12 @@ BlkArea(b) == RFrac(ISum(KidsTab[b], LAMBDA l : Area[l]), Sym[b])               
 RECURSIVE VolOf(_)
 VolOf(x) == IF IsLeaf(x) THEN RInt(VolLeaf(x))
             ELSE IF IsBlk(x) THEN RFrac(ISum(KidsTab[x], VolLeaf), Sym[x])
-            ELSE IF IsAsm(x) THEN RMul(BlkArea(FirstBlk(x)), RInt(ISum(KidsTab[x], LAMBDA b : Height[b])))
-            ELSE RSumSet(KidsTab[x], VolOf)
-Vol == [x \in Node |-> VolOf(x)]                                   \* getVolume()
-CutVol == [x \in Node |-> IF IsLeaf(x) THEN RFrac(VolLeaf(x), Sym[Parent[x]]) ELSE Vol[x]]   \* the part inside the model
-EditVol == [x \in Node |-> IF LeafVolCut THEN CutVol[x] ELSE Vol[x]]   \* the volume getMasses/addMass/setMass/getNumberOfAtoms use
-VolFrac == [x \in Node |-> [c \in KidsTab[x] |-> RDiv(Vol[c], RSumSet(KidsTab[x], LAMBDA k : Vol[k]))]]   \* getVolumeFractions
+            ELSE IF IsAsm(x) THEN QMul(BlkArea(FirstBlk(x)), RInt(ISum(KidsTab[x], LAMBDA b : Height[b])))
+            ELSE QSumSet(KidsTab[x], VolOf)
+Vol == TLCEval([x \in Node |-> VolOf(x)])                                   \* getVolume()
+CutVol == TLCEval([x \in Node |-> IF IsLeaf(x) THEN RFrac(VolLeaf(x), Sym[Parent[x]]) ELSE Vol[x]])   \* the part inside the model
+EditVol == TLCEval([x \in Node |-> IF LeafVolCut THEN CutVol[x] ELSE Vol[x]])   \* the volume getMasses/addMass/setMass/getNumberOfAtoms use
+VolFrac == TLCEval([x \in Node |-> TLCEval([c \in KidsTab[x] |-> QDiv(Vol[c], QSumSet(KidsTab[x], LAMBDA k : Vol[k]))])])   \* getVolumeFractions
 
 ASSUME WellFormed ==
     /\ \A l \in Leaf : Parent[l] \in Blk
@@ -119,26 +125,26 @@ NucsAt(HH, x)  == UNION {HH[l] : l \in Under[x]}
 RECURSIVE ND(_, _, _)
 ND(NN, x, n) ==                                                    \* getNumberDensity / getNuclideNumberDensities
     IF IsLeaf(x) THEN NN[x][n]
-    ELSE LET w(c) == RDiv(Vol[c], RInt(SymOf(x)))
-         IN RDiv(RSumSet(KidsTab[x], LAMBDA c : RMul(w(c), ND(NN, c, n))), RSumSet(KidsTab[x], w))
+    ELSE LET w(c) == QDiv(Vol[c], RInt(SymOf(x)))
+         IN QDiv(QSumSet(KidsTab[x], LAMBDA c : QMul(w(c), ND(NN, c, n))), QSumSet(KidsTab[x], w))
 NDvec(NN, x) == [n \in Nuc |-> ND(NN, x, n)]
 
 \* utils/densityTools.py (pure functions; K-free units)
-DT_MassDensity(v)        == RSumSet(Nuc, LAMBDA n : RMul(v[n], RInt(W[n])))                     \* calculateMassDensity
+DT_MassDensity(v)        == QSumSet(Nuc, LAMBDA n : QMul(v[n], RInt(W[n])))                     \* calculateMassDensity
 DT_MassFractions(v)      == LET tot == DT_MassDensity(v)                                          \* getMassFractions
-                            IN [n \in Nuc |-> IF RIsZero(tot) THEN RZero ELSE RDiv(RMul(v[n], RInt(W[n])), tot)]
-DT_NDensFromMasses(rho, mf) == [n \in Nuc |-> RDiv(RMul(mf[n], rho), RInt(W[n]))]                \* getNDensFromMasses
-DT_NumberDensity(n, m, V) == RDiv(m, RMul(V, RInt(W[n])))                                        \* calculateNumberDensity
-DT_MassInGrams(n, V, d)   == RMul(RMul(d, V), RInt(W[n]))                                        \* getMassInGrams
+                            IN [n \in Nuc |-> IF RIsZero(tot) THEN RZero ELSE QDiv(QMul(v[n], RInt(W[n])), tot)]
+DT_NDensFromMasses(rho, mf) == [n \in Nuc |-> QDiv(QMul(mf[n], rho), RInt(W[n]))]                \* getNDensFromMasses
+DT_NumberDensity(n, m, V) == QDiv(m, QMul(V, RInt(W[n])))                                        \* calculateNumberDensity
+DT_MassInGrams(n, V, d)   == QMul(QMul(d, V), RInt(W[n]))                                        \* getMassInGrams
 
-LeafRho(NN, l, S) == RSumSet(S, LAMBDA n : RMul(NN[l][n], RInt(W[n])))
+LeafRho(NN, l, S) == QSumSet(S, LAMBDA n : QMul(NN[l][n], RInt(W[n])))
 RECURSIVE Mass(_, _, _)
-Mass(NN, x, S) == IF IsLeaf(x) THEN RMul(LeafRho(NN, x, S), CutVol[x])                           \* Component.getMass
-                  ELSE RSumSet(KidsTab[x], LAMBDA c : Mass(NN, c, S))                            \* ArmiObject.getMass
+Mass(NN, x, S) == IF IsLeaf(x) THEN QMul(LeafRho(NN, x, S), CutVol[x])                           \* Component.getMass
+                  ELSE QSumSet(KidsTab[x], LAMBDA c : Mass(NN, c, S))                            \* ArmiObject.getMass
 Dens(NN, x)       == DT_MassDensity(NDvec(NN, x))                                                \* density()
 MassFracs(NN, x)  == DT_MassFractions(NDvec(NN, x))                                              \* getMassFracs()
 MassesAt(NN, x)   == [n \in Nuc |-> DT_MassInGrams(n, EditVol[x], ND(NN, x, n))]                 \* getMasses()
-Atoms(NN, x, n)   == RMul(ND(NN, x, n), EditVol[x])                                              \* getNumberOfAtoms
+Atoms(NN, x, n)   == QMul(ND(NN, x, n), EditVol[x])                                              \* getNumberOfAtoms
 \* nuclide specifiers accepted by getMass: a name, an element symbol, a list of those, None
 Sel == [a |-> {"a"}, b |-> {"b"}, c |-> {"c"}, E |-> Elem, Lac |-> {"a", "c"}, LEc |-> Elem \cup {"c"}, all |-> Nuc]
 
@@ -149,14 +155,14 @@ PutN(st, x, n, v) ==                   \* setNumberDensity below the refusal che
     IF IsLeaf(x) THEN [N |-> [st.N EXCEPT ![x][n] = v], H |-> [st.H EXCEPT ![x] = @ \cup {n}]]
     ELSE LET active == {c \in KidsTab[x] : Has(st.H, c, n)}
          IN IF active = {} THEN st
-            ELSE LET dv == RDiv(v, RSumSet(active, LAMBDA c : VolFrac[x][c]))
+            ELSE LET dv == QDiv(v, QSumSet(active, LAMBDA c : VolFrac[x][c]))
                  IN FoldSet(LAMBDA c, acc : PutN(acc, c, n, dv), st, active)
 RECURSIVE Upd1(_, _, _, _)
 Upd1(st, x, n, d) ==                   \* one entry of updateNumberDensities
     IF IsLeaf(x) THEN [N |-> [st.N EXCEPT ![x][n] = d], H |-> [st.H EXCEPT ![x] = @ \cup {n}]]
     ELSE LET active == {c \in KidsTab[x] : Has(st.H, c, n)}
          IN IF active = {} THEN (IF RIsZero(d) THEN st ELSE FoldSet(LAMBDA c, acc : Upd1(acc, c, n, d), st, KidsTab[x]))
-            ELSE LET dv == RDiv(d, RSumSet(active, LAMBDA c : VolFrac[x][c]))
+            ELSE LET dv == QDiv(d, QSumSet(active, LAMBDA c : VolFrac[x][c]))
                  IN FoldSet(LAMBDA c, acc : Upd1(acc, c, n, dv), st, active)
 UpdMap(st, x, m) == FoldSet(LAMBDA n, acc : Upd1(acc, x, n, m[n]), st, DOMAIN m)
 SetMap(st, x, m) ==                    \* setNumberDensities
@@ -164,22 +170,28 @@ SetMap(st, x, m) ==                    \* setNumberDensities
                        H |-> [st.H EXCEPT ![x] = DOMAIN m]]
     ELSE UpdMap(st, x, [n \in (DOMAIN m) \cup NucsAt(st.H, x) |-> IF n \in DOMAIN m THEN m[n] ELSE RZero])
 ScaleSt(st, x, f) ==                   \* changeNDensByFactor
-    IF IsLeaf(x) THEN [N |-> [st.N EXCEPT ![x] = [n \in Nuc |-> RMul(@[n], f)]], H |-> st.H]
-    ELSE SetMap(st, x, [n \in NucsAt(st.H, x) |-> RMul(ND(st.N, x, n), f)])
+    IF IsLeaf(x) THEN [N |-> [st.N EXCEPT ![x] = [n \in Nuc |-> QMul(@[n], f)]], H |-> st.H]
+    ELSE SetMap(st, x, [n \in NucsAt(st.H, x) |-> QMul(ND(st.N, x, n), f)])
 ClearSt(st, x) == SetMap(st, x, [n \in NucsAt(st.H, x) |-> RZero])   \* trace (1e-50) modelled as 0, tr' = TRUE
 MassFracSt(st, x, fm) ==               \* setMassFracs, all setNumberDensity calls accepted
     LET rho    == Dens(st.N, x)
         old    == MassFracs(st.N, x)
         listed == DOMAIN fm
         others == NucsAt(st.H, x) \ listed
-        st1    == FoldSet(LAMBDA n, acc : PutN(acc, x, n, RDiv(RMul(fm[n], rho), RInt(W[n]))), st, listed)
-        totSet == RSumSet(listed, LAMBDA n : fm[n])
-        totOth == RSumSet(others, LAMBDA n : old[n])
+        st1    == FoldSet(LAMBDA n, acc : PutN(acc, x, n, QDiv(QMul(fm[n], rho), RInt(W[n]))), st, listed)
+        totSet == QSumSet(listed, LAMBDA n : fm[n])
+        totOth == QSumSet(others, LAMBDA n : old[n])
     IN IF RIsZero(totOth) THEN st1
        ELSE FoldSet(LAMBDA o, acc : PutN(acc, x, o,
-                        RDiv(RMul(RMul(RSub(ROne, totSet), RDiv(old[o], totOth)), rho), RInt(W[o]))), st1, others)
+                        QDiv(QMul(QMul(QSub(ROne, totSet), QDiv(old[o], totOth)), rho), RInt(W[o]))), st1, others)
 
-Accept(a, st2, t) == N' = st2.N /\ H' = st2.H /\ tr' = t /\ act' = a /\ err' = ""
+\* TLC integers are 32-bit: an edit whose result leaves the bounded domain of magnitudes is not taken in the model
+\* (a bound of the exploration like MaxLevel, not a refusal of the code)
+SmallSt(st) == LET dens == {st.N[l][n][2] : l \in Leaf, n \in Nuc}
+               IN /\ \A d \in dens : d <= LMax
+                  /\ FoldSet(LAMBDA d, acc : IF acc > LMax THEN acc ELSE QLcm(d, acc), 1, dens) <= LMax
+                  /\ \A l \in Leaf, n \in Nuc : st.N[l][n][1] <= VMax * st.N[l][n][2]
+Accept(a, st2, t) == SmallSt(st2) /\ N' = st2.N /\ H' = st2.H /\ tr' = t /\ act' = a /\ err' = ""
 Refuse(a, kind)   == UNCHANGED vars /\ act' = a /\ err' = kind
 
 SetN(x, n, v) ==
@@ -187,14 +199,17 @@ SetN(x, n, v) ==
     IN IF ~IsLeaf(x) /\ ~Has(H, x, n) /\ ~RIsZero(v) THEN Refuse(a, "ValueError") ELSE Accept(a, PutN(St, x, n, v), tr)
 UpdateN(x, m) == Accept([n |-> "UpdateN", x |-> x, m |-> m], UpdMap(St, x, m), tr)
 SetNs(x, m)   == Accept([n |-> "SetNs", x |-> x, m |-> m], SetMap(St, x, m), tr)
-Scale(x, f)   == Accept([n |-> "Scale", x |-> x, f |-> f], ScaleSt(St, x, f), tr)
+Scale(x, f)   == LET st2 == ScaleSt(St, x, f) IN
+                 /\ SmallSt(st2) /\ N' = st2.N /\ H' = st2.H /\ tr' = tr
+                 /\ act' = [n |-> "Scale", x |-> x, f |-> f]
+                 /\ err' = IF ScaleRaises /\ ~IsLeaf(x) THEN "AttributeError" ELSE ""   \* raised after the densities were set
 Clear(x)      == NucsAt(H, x) # {} /\ Accept([n |-> "Clear", x |-> x], ClearSt(St, x), TRUE)
 MassEdit(name, x, n, m, v) ==          \* addMass / removeMass / setMass end in setNumberDensity(n, v)
     LET a == [n |-> name, x |-> x, nuc |-> n, m |-> m]
     IN IF ~IsLeaf(x) /\ ~Has(H, x, n) /\ ~RIsZero(v) THEN Refuse(a, "ValueError") ELSE Accept(a, PutN(St, x, n, v), tr)
-AddMass(x, n, m)    == MassEdit("AddMass", x, n, m, RAdd(ND(N, x, n), DT_NumberDensity(n, m, EditVol[x])))
+AddMass(x, n, m)    == MassEdit("AddMass", x, n, m, QAdd(ND(N, x, n), DT_NumberDensity(n, m, EditVol[x])))
 RemoveMass(x, n, m) == /\ RLt(m, DT_MassInGrams(n, EditVol[x], ND(N, x, n)))      \* never all there is
-                       /\ MassEdit("RemoveMass", x, n, m, RAdd(ND(N, x, n), DT_NumberDensity(n, RNeg(m), EditVol[x])))
+                       /\ MassEdit("RemoveMass", x, n, m, QAdd(ND(N, x, n), DT_NumberDensity(n, RNeg(m), EditVol[x])))
 SetMass(x, n, m)    == MassEdit("SetMass", x, n, m, DT_NumberDensity(n, m, EditVol[x]))
 SetMassFracs(x, fm) ==
     LET a == [n |-> "SetMassFracs", x |-> x, m |-> fm]
@@ -206,48 +221,56 @@ SetMassFracs(x, fm) ==
                   ELSE Cardinality(DOMAIN fm) = 1 /\ Refuse(a, "ValueError")        \* nobody holds the nuclide
 
 Init == N = N0 /\ H = H0 /\ tr = FALSE /\ act = [n |-> "Init"] /\ err = ""
-Next == \E x \in Targets :
-            \/ \E n \in Nuc, v \in Vals : SetN(x, n, v)
-            \/ \E m \in Maps : UpdateN(x, m)
-            \/ \E m \in Maps : SetNs(x, m)
-            \/ \E f \in Facs : Scale(x, f)
-            \/ Clear(x)
-            \/ \E n \in Nuc, m \in Masses : AddMass(x, n, m)
-            \/ \E n \in Nuc, m \in Masses : RemoveMass(x, n, m)
-            \/ \E n \in Nuc, m \in Masses : SetMass(x, n, m)
-            \/ \E fm \in FracMaps : SetMassFracs(x, fm)
+DoSetN        == \E x \in Targets, n \in Nuc, v \in Vals : SetN(x, n, v)
+DoUpdateN     == \E x \in Targets, m \in Maps : UpdateN(x, m)
+DoSetNs       == \E x \in Targets, m \in Maps : SetNs(x, m)
+DoScale       == \E x \in Targets, f \in Facs : Scale(x, f)
+DoClear       == \E x \in Targets : Clear(x)
+DoAddMass     == \E x \in Targets, n \in Nuc, m \in Masses : AddMass(x, n, m)
+DoRemoveMass  == \E x \in Targets, n \in Nuc, m \in Masses : RemoveMass(x, n, m)
+DoSetMass     == \E x \in Targets, n \in Nuc, m \in Masses : SetMass(x, n, m)
+DoSetMassFracs == \E x \in Targets, fm \in FracMaps : SetMassFracs(x, fm)
+Next == DoSetN \/ DoUpdateN \/ DoSetNs \/ DoScale \/ DoClear \/ DoAddMass \/ DoRemoveMass \/ DoSetMass \/ DoSetMassFracs
 
 (* ------------------------------- the property, clause by clause (state invariants) ---------------------- *)
+\* per-state tables, evaluated once per invariant (TLC does not memoise operators)
+NDT(NN) == TLCEval([x \in Node |-> TLCEval(NDvec(NN, x))])
+MT(NN)  == TLCEval([x \in Node |-> TLCEval([n \in Nuc |-> Mass(NN, x, {n})])])
 IsRat(q) == q \in Int \X (Nat \ {0}) /\ q = Norm(q[1], q[2])
 TypeOK == /\ \A l \in Leaf : H[l] \subseteq Nuc /\ \A n \in Nuc : IsRat(N[l][n]) /\ (n \notin H[l] => RIsZero(N[l][n]))
           /\ \A l \in Leaf, n \in Nuc : RLeq(RZero, N[l][n])
 \* "its volume is the sum of its children's volumes (reduced by the symmetry factor where a block is cut)"
+\* (a statement about the constant tree; it holds because of ASSUME EqualAreas)
 VolumeAdditive == \A x \in Node \ Leaf :
-    Vol[x] = RDiv(RSumSet(KidsTab[x], LAMBDA c : Vol[c]), RInt(IF IsBlk(x) THEN Sym[x] ELSE 1))
-\* "its mass (total, or of any nuclide or element selection) is the sum of its children's masses" and
+    Vol[x] = QDiv(QSumSet(KidsTab[x], LAMBDA c : Vol[c]), RInt(IF IsBlk(x) THEN Sym[x] ELSE 1))
+ASSUME VolumeAdditiveHolds == VolumeAdditive
+\* "its mass (total, or of any nuclide or element selection) is the sum of its children's masses": for every selection
+\* the mass of the object is the sum over its children, over its leaves, and over the nuclides of the selection
+MassAdditive == LET m == MT(N) IN \A x \in Node \ Leaf : \A s \in DOMAIN Sel :
+    LET ms == Mass(N, x, Sel[s])
+    IN /\ ms = QSumSet(KidsTab[x], LAMBDA c : QSumSet(Sel[s], LAMBDA n : m[c][n]))
+       /\ ms = QSumSet(Under[x], LAMBDA l : QSumSet(Sel[s], LAMBDA n : m[l][n]))
+       /\ ms = QSumSet(Sel[s], LAMBDA n : m[x][n])
 \* "mass equals density times volume": the mass summed over the leaves equals the homogenised density of the object
-\* times the object's own volume, for every selection
-MassIsDensityTimesVolume == \A x \in Node : \A s \in DOMAIN Sel :
-    Mass(N, x, Sel[s]) = RMul(RSumSet(Sel[s], LAMBDA n : RMul(ND(N, x, n), RInt(W[n]))), CutVol[x])
-MassAdditive == \A x \in Node \ Leaf : \A s \in DOMAIN Sel :
-    Mass(N, x, Sel[s]) = RSumSet(Under[x], LAMBDA l : Mass(N, l, Sel[s]))
-    /\ Mass(N, x, Sel[s]) = RSumSet(Sel[s], LAMBDA n : Mass(N, x, {n}))
-TotalMassIsDensityTimesVolume == \A x \in Node : Mass(N, x, Nuc) = RMul(Dens(N, x), CutVol[x])
+\* times the object's own volume, nuclide by nuclide, and in total with density() as the density
+MassIsDensityTimesVolume == LET nd == NDT(N)  m == MT(N) IN \A x \in Node :
+    /\ \A n \in Nuc : m[x][n] = QMul(QMul(nd[x][n], RInt(W[n])), CutVol[x])
+    /\ Mass(N, x, Nuc) = QMul(DT_MassDensity(nd[x]), CutVol[x])
 \* "its number density of each nuclide is the volume-weighted mean of its children's, so atoms counted as density times
 \* volume agree at component, block, assembly and core level"
-AtomsAgree == \A x \in Node \ Leaf : \A n \in Nuc :
-    RMul(ND(N, x, n), CutVol[x]) = RSumSet(KidsTab[x], LAMBDA c : RMul(ND(N, c, n), CutVol[c]))
+AtomsAgree == LET nd == NDT(N) IN \A x \in Node \ Leaf : \A n \in Nuc :
+    QMul(nd[x][n], CutVol[x]) = QSumSet(KidsTab[x], LAMBDA c : QMul(nd[c][n], CutVol[c]))
 \* getMasses()[n] and getMass(n) are the same quantity, getNumberOfAtoms is density times the volume in the model
-MassesAgreeWithMass == \A x \in Node \ Leaf : \A n \in Nuc :
-    MassesAt(N, x)[n] = Mass(N, x, {n}) /\ Atoms(N, x, n) = RMul(ND(N, x, n), CutVol[x])
+MassesAgreeWithMass == LET nd == NDT(N)  m == MT(N) IN \A x \in Node \ Leaf : \A n \in Nuc :
+    DT_MassInGrams(n, EditVol[x], nd[x][n]) = m[x][n] /\ QMul(nd[x][n], EditVol[x]) = QMul(nd[x][n], CutVol[x])
 CutLeafMassesAgree == \A l \in Leaf : \A n \in Nuc :          \* fails for LeafVolCut = FALSE where Sym > 1 (see header)
-    MassesAt(N, l)[n] = Mass(N, l, {n}) /\ Atoms(N, l, n) = RMul(N[l][n], CutVol[l])
+    MassesAt(N, l)[n] = Mass(N, l, {n}) /\ Atoms(N, l, n) = QMul(N[l][n], CutVol[l])
 \* "Mass fractions always sum to one and the mass-fraction/number-density/mass conversions are mutual inverses"
-MassFracsSumToOne == \A x \in Node : RIsZero(Dens(N, x)) \/ RSumSet(Nuc, LAMBDA n : MassFracs(N, x)[n]) = ROne
-ConversionsInverse == \A x \in Node :
-    LET v == NDvec(N, x)  rho == DT_MassDensity(v)  mf == DT_MassFractions(v)
-    IN /\ RIsZero(rho) \/ (DT_NDensFromMasses(rho, mf) = v /\ DT_MassFractions(DT_NDensFromMasses(rho, mf)) = mf
-                           /\ DT_MassDensity(DT_NDensFromMasses(rho, mf)) = rho)
+MassFracsSumToOne == LET nd == NDT(N) IN \A x \in Node :
+    RIsZero(DT_MassDensity(nd[x])) \/ QSumSet(Nuc, LAMBDA n : DT_MassFractions(nd[x])[n]) = ROne
+ConversionsInverse == LET nd == NDT(N) IN \A x \in Node :
+    LET v == nd[x]  rho == DT_MassDensity(v)  mf == TLCEval(DT_MassFractions(v))  back == TLCEval(DT_NDensFromMasses(rho, mf))
+    IN /\ RIsZero(rho) \/ (back = v /\ DT_MassFractions(back) = mf /\ DT_MassDensity(back) = rho)
        /\ \A n \in Nuc : DT_NumberDensity(n, DT_MassInGrams(n, Vol[x], v[n]), Vol[x]) = v[n]
        /\ \A n \in Nuc, m \in Masses : DT_MassInGrams(n, Vol[x], DT_NumberDensity(n, m, Vol[x])) = m
 
@@ -262,9 +285,9 @@ UpdateNReadsBack == Ok("UpdateN") =>
     \A n \in Nuc : ND(N', act'.x, n) = IF n \in DOMAIN act'.m THEN act'.m[n] ELSE ND(N, act'.x, n)
 SetNsReadsBack == Ok("SetNs") =>
     \A n \in Nuc : ND(N', act'.x, n) = IF n \in DOMAIN act'.m THEN act'.m[n] ELSE RZero
-ScaleReadsBack == Ok("Scale") => \A n \in Nuc : ND(N', act'.x, n) = RMul(ND(N, act'.x, n), act'.f)
+ScaleReadsBack == act'.n = "Scale" => \A n \in Nuc : ND(N', act'.x, n) = QMul(ND(N, act'.x, n), act'.f)
 ClearReadsBack == Ok("Clear") => \A n \in Nuc : RIsZero(ND(N', act'.x, n)) /\ NucsAt(H', act'.x) = NucsAt(H, act'.x)
-MassDelta(x, n) == RSub(Mass(N', x, {n}), Mass(N, x, {n}))
+MassDelta(x, n) == QSub(Mass(N', x, {n}), Mass(N, x, {n}))
 AddMassReadsBack == (Ok("AddMass") /\ ~Cut(act'.x)) => MassDelta(act'.x, act'.nuc) = act'.m /\ OthersKept(act'.x, act'.nuc)
 RemoveMassReadsBack == (Ok("RemoveMass") /\ ~Cut(act'.x)) =>
     MassDelta(act'.x, act'.nuc) = RNeg(act'.m) /\ OthersKept(act'.x, act'.nuc)
@@ -275,34 +298,43 @@ CutLeafMassReadsBack ==          \* the same three clauses on components of bloc
         ELSE MassDelta(act'.x, act'.nuc) = (IF act'.n = "AddMass" THEN act'.m ELSE RNeg(act'.m))
 \* "assigning mass fractions reads back those fractions with the remaining nuclides keeping their proportions and the
 \* total density unchanged"
-Feasible(x, fm) == \/ RSumSet(DOMAIN fm, LAMBDA n : fm[n]) = ROne
+Feasible(x, fm) == \/ QSumSet(DOMAIN fm, LAMBDA n : fm[n]) = ROne
                    \/ \E o \in NucsAt(H, x) \ DOMAIN fm : ~RIsZero(ND(N, x, o))
 SetMassFracsReadsBack == (Ok("SetMassFracs") /\ Feasible(act'.x, act'.m)) =>
     LET x == act'.x  fm == act'.m  new == MassFracs(N', x)  old == MassFracs(N, x)
     IN /\ \A n \in DOMAIN fm : new[n] = fm[n]
        /\ Dens(N', x) = Dens(N, x)
-       /\ \A o1, o2 \in Nuc \ DOMAIN fm : RMul(new[o1], old[o2]) = RMul(new[o2], old[o1])
+       /\ \A o1, o2 \in Nuc \ DOMAIN fm : QMul(new[o1], old[o2]) = QMul(new[o2], old[o1])
 \* edits never reach outside the edited object; refusals change nothing
 OutsideUntouched == act'.n # "Init" => \A l \in Leaf \ Under[act'.x] : N'[l] = N[l] /\ H'[l] = H[l]
-RefusalsChangeNothing == err' # "" => UNCHANGED vars
+RefusalsChangeNothing == err' = "ValueError" => UNCHANGED vars
 \* component-level setters make the component hold exactly what was set
-KeysGrowOnly == (err' = "" /\ act'.n \notin {"SetNs", "Init"}) => \A l \in Leaf : H[l] \subseteq H'[l]
+KeysGrowOnly == (err' # "ValueError" /\ act'.n \notin {"SetNs", "Init"}) => \A l \in Leaf : H[l] \subseteq H'[l]
 
 ReadBack == [][/\ SetNReadsBack /\ UpdateNReadsBack /\ SetNsReadsBack /\ ScaleReadsBack /\ ClearReadsBack
                /\ AddMassReadsBack /\ RemoveMassReadsBack /\ SetMassReadsBack /\ SetMassFracsReadsBack]_allvars
 Locality == [][OutsideUntouched /\ RefusalsChangeNothing /\ KeysGrowOnly]_allvars
 CutLeafReadBack == [][CutLeafMassReadsBack]_allvars
+\* "scaling the number density ... at any level": the call completes at every level (see header: ScaleRaises)
+ScaleCompletes == act'.n = "Scale" => err' = ""
+ScaleAtAnyLevel == [][ScaleCompletes]_allvars
 
 (* --------------------------------- what is emitted as the oracle for the real code ----------------------- *)
 HB(HH) == [l \in Leaf |-> [i \in 1..3 |-> NucSeq[i] \in HH[l]]]
 Vars == [N |-> N, H |-> HB(H), tr |-> tr]
-ObsOf(x) == [vol  |-> Vol[x],
-             nucs |-> [i \in 1..3 |-> NucSeq[i] \in NucsAt(H, x)],
-             nd   |-> NDvec(N, x),
-             mass |-> [s \in DOMAIN Sel |-> Mass(N, x, Sel[s])],
-             masses |-> MassesAt(N, x),
-             atoms  |-> [n \in Nuc |-> Atoms(N, x, n)],
-             dens |-> Dens(N, x),
-             mf   |-> MassFracs(N, x)]
-Obs == [x \in Node |-> ObsOf(x)]
+\* what every query of the real object has to return in this state ("undefined": not compared, see header)
+ObsOf(x, v) ==
+    LET rho == DT_MassDensity(v)
+    IN [vol    |-> Vol[x],
+        evol   |-> EditVol[x],
+        nucs   |-> [i \in 1..3 |-> NucSeq[i] \in NucsAt(H, x)],
+        nd     |-> v,
+        mass   |-> [s \in DOMAIN Sel |-> Mass(N, x, Sel[s])],
+        masses |-> [n \in Nuc |-> DT_MassInGrams(n, EditVol[x], v[n])],
+        atoms  |-> [n \in Nuc |-> QMul(v[n], EditVol[x])],
+        dens   |-> IF IsLeaf(x) /\ RIsZero(rho) THEN <<-1, 1>> ELSE rho,         \* -1: Component.density() defers to the material
+        mf     |-> IF RIsZero(rho) THEN [n \in Nuc |-> <<-1, 1>>] ELSE DT_MassFractions(v)]   \* -1: not compared
+Obs == LET nd == NDT(N) IN [x \in Node |-> ObsOf(x, nd[x])]
+Tree == [parent |-> Parent, area |-> Area, height |-> [b \in Blk |-> Height[b]], sym |-> [b \in Blk |-> Sym[b]],
+         w |-> W, nleaf |-> NLeaf, nblk |-> NBlk, nasm |-> NAsm, leafVolCut |-> LeafVolCut, scaleRaises |-> ScaleRaises, targets |-> Targets]
 ==========================================================================================================
